@@ -214,7 +214,11 @@ static bool getter_fails(vif *v, uint32_t bit) {
 int lltd_port_get_mtu(void *ctx, size_t *out) {
     vif *v = VIF(ctx);
     if (!v) return -1;
-    if (getter_fails(v, VF_MTU)) return -1;
+    if (getter_fails(v, VF_MTU)) {
+        if (v->fail_style == 2) { *out = 0; return 0; }
+        if (v->fail_style == 1) *out = 7;
+        return -1;
+    }
     *out = v->mtu;
     return 0;
 }
@@ -291,7 +295,7 @@ size_t lltd_port_get_hw_id(void *dst, size_t dst_len) {
 int lltd_port_get_mac_address(void *ctx, void *out_mac) {
     vif *v = VIF(ctx);
     if (!v || !out_mac) return -1;
-    if (getter_fails(v, VF_MAC)) return -1;
+    if (getter_fails(v, VF_MAC)) return -1;   /* always leaves the output untouched: the core is entitled to its own initial value then */
     memcpy(out_mac, v->mac, 6);
     return 0;
 }
@@ -302,28 +306,28 @@ uint32_t lltd_port_get_characteristics_flags(void *ctx) {
 int lltd_port_get_if_type(void *ctx, uint32_t *out) {
     vif *v = VIF(ctx);
     if (!v) return -1;
-    if (getter_fails(v, VF_IFTYPE)) return -1;
+    if (getter_fails(v, VF_IFTYPE)) { if (v->fail_style == 1) *out = 0xA5A5A5A5u; return -1; }
     *out = v->iftype;
     return 0;
 }
 int lltd_port_get_ipv4_address(void *ctx, uint32_t *out) {
     vif *v = VIF(ctx);
     if (!v) return -1;
-    if (getter_fails(v, VF_IPV4)) return -1;
+    if (getter_fails(v, VF_IPV4)) { if (v->fail_style == 1) *out = 0xA5A5A5A5u; return -1; }
     *out = v->ipv4_be;
     return 0;
 }
 int lltd_port_get_ipv6_address(void *ctx, uint8_t out[16]) {
     vif *v = VIF(ctx);
     if (!v) return -1;
-    if (getter_fails(v, VF_IPV6)) return -1;
+    if (getter_fails(v, VF_IPV6)) { if (v->fail_style == 1) memset(out, 0xA5, 16); return -1; }
     memcpy(out, v->ipv6, 16);
     return 0;
 }
 int lltd_port_get_link_speed_100bps(void *ctx, uint32_t *out) {
     vif *v = VIF(ctx);
     if (!v) return -1;
-    if (getter_fails(v, VF_SPEED)) return -1;
+    if (getter_fails(v, VF_SPEED)) { if (v->fail_style == 1) *out = 0xA5A5A5A5u; return -1; }
     *out = v->speed;
     return 0;
 }
